@@ -16,7 +16,7 @@
    are not distinguished (evm.Call materialises the callee account even for a
    zero-value call under STATICCALL; Finalise(true) removes it again - EIP-161). *)
 From VF.C16 Require Import Model ProofsState ProofsEvm Bridge.
-From VF.gen Require Import C16Table.
+From VF.gen Require Import C16Table C16Aliasing.
 Local Open Scope N_scope.
 
 (* 1a. A call frame of any kind that ends in an error or a revert leaves accounts
@@ -122,6 +122,12 @@ Print Assumptions C16_real_table_ok.
 Theorem C16_real_rows_ok : rows_ok real_ops real_gas = true.
 Proof. exact real_rows_ok. Qed.
 Print Assumptions C16_real_rows_ok.
+
+(* bridge: no in-place modification of a stored account balance (journal-shared big.Int
+   values), and no in-place big.Int write on a stored field beyond the pinned inventory *)
+Theorem C16_inplace_writes_pinned : inplace_ok C16Aliasing.inplace_writes = true.
+Proof. exact real_inplace_writes_pinned. Qed.
+Print Assumptions C16_inplace_writes_pinned.
 
 (* ---- non-vacuity ------------------------------------------------------------------ *)
 
